@@ -1425,7 +1425,7 @@ STR = _StrShim()
 
 
 def _has_sym(b):
-    if type(b) is SymInt or type(b) is SymBool or _isinstance(b, OpaqueStr):
+    if type(b) is SymInt or type(b) is SymBool or type(b) is SymRatio or _isinstance(b, OpaqueStr):
         return True
     if _isinstance(b, tuple):
         for e in b:
